@@ -4,7 +4,10 @@ COMMON_NOTE = ('Trusted: Lean 4.33 kernel (+ leanchecker in the thorough tier); 
                '(audited with #print axioms on every run; no sorry/native_decide/bv_decide/own axioms); the hand-written model is '
                'tied to /repo by the correspondence check run on every invocation (harness/props/*.py + Driver/*.lean) and by '
                'constants/signatures regenerated from the source (harness/extract.py). Theorems are over the reals/rationals/any '
-               'linear order: IEEE rounding, numpy/scipy/astropy internals and the OS are outside the theorems. ')
+               'linear order: IEEE rounding, numpy/scipy/astropy internals and the OS are outside the theorems. Which callables of the '
+               'anchored files are inside the Lean model (and which are only exercised through callers / oracles) is regenerated from the '
+               'current source into evidence coverage.model_map on every run; when the tree under test differs from source_baseline.json '
+               'the run continues with two further derived seeds (coverage.source_drift). ')
 
 # properties whose check is built, self-tested and integrated (the MANIFEST text of each lives in
 # harness/props/<id>.py : MANIFEST)
